@@ -1649,6 +1649,28 @@ def run(tier):
     Check.restrict(sub04, lambda wh, what: 'loop over' in what
                    or 'continues with the next mutator' in what)
     chk.adopt('C14.R11', 'every enabled mutator is asked for every node: a failure of one mutator does not end the loop over the mutators (shared with the per-mutator part of C04.R1)', sub04)
+    # ... and really asked: the producer offers every node to every mutator
+    # of the pass, through filter (when it has one), mutations and
+    # global_mutations (shared with C02.R4)
+    from . import c02 as _c02
+    sub02 = Check('C02', 'other', tier, [], [])
+    chk.guard(_c02.rule_r4, sub02, prog)
+    chk.adopt('C14.R12', 'an enabled mutator that is scheduled in a pass is '
+              'asked for proposals at every node: the producer consults '
+              'filter only when the mutator has one and calls mutations / '
+              'global_mutations whenever they exist (shared with C02.R4)',
+              sub02)
+    # the command's own arguments are not parsed as ddSMT options: what
+    # follows the command on the command line belongs to the command
+    # (shared with C09.R4, the positional part)
+    from . import c09 as _c09
+    sub09 = Check('C09', 'other', tier, [], [])
+    chk.guard(_c09.rule_r4, sub09, prog)
+    Check.restrict(sub09, lambda wh, what: str(what) == 'cmd'
+                   or 'REMAINDER' in str(what))
+    chk.adopt('C14.R13', 'the arguments of the command are not interpreted '
+              'as mutator toggles: the positional "cmd" takes the remainder '
+              'of the command line verbatim (shared with C09.R4)', sub09)
     extra = None
     if tier == 'thorough':
         from .. import selftest
